@@ -237,6 +237,41 @@ def reader_check(ctx, prop):
             if prop in ("C06", "C11", "C12"):
                 yield ("runs", dict(c, validate=0, msgmode=(k // 3) % 4))
 
+    def gen_repeat():
+        """relations BETWEEN consecutive frames: the same frame two and three times in a row, a different frame of the same protocol and
+        length right behind it (same header, other content), frames in ascending / descending length order, a frame whose payload starts
+        with the previous frame's header"""
+        from ..common import frame as _frame
+
+        simple = [x for x in pool if len(x[0]) < 120][:30]
+        if len(simple) < 8:
+            return
+        seqs = []
+        for k, (f, pp) in enumerate(simple[:14]):
+            if pp == "UBX" and len(f) > 8:
+                twin = _frame(f[2], f[3], bytes(b ^ 1 for b in f[6:-2]))
+                heir = _frame(f[2], (f[3] + 1) % 256, f[:6] + bytes(len(f) - 14 if len(f) > 14 else 0))
+            elif pp == "RTCM" and len(f) > 6:
+                twin = st.rtcm_frame(f[3:-4] + bytes((f[-4] ^ 1,)))
+                heir = st.rtcm_frame(f[3:-3])
+            else:
+                twin = heir = simple[(k + 3) % len(simple)][0]
+            o1, o2 = simple[(k + 1) % len(simple)], simple[(k + 5) % len(simple)]
+            seqs.append([(f, pp), (f, pp), (twin, pp), (f, pp), o1, (f, pp), (f, pp), (f, pp), (heir, pp), o2, (twin, pp), (twin, pp)])
+        asc = sorted(simple, key=lambda x: len(x[0]))
+        seqs += [asc, asc[::-1], [x for pair in zip(asc, asc[::-1]) for x in pair]]
+        for k, parts in enumerate(seqs):
+            pos = 0
+            rec = []
+            for fr, pp in parts:
+                rec.append({"a": pos, "b": pos + len(fr), "p": pp, "ok": -1, "dd": "", "fam": ""})
+                pos += len(fr)
+            S = b"".join(fr for fr, _ in parts)
+            if prop == "C09" and len(S) > 700:
+                continue
+            yield ("runs", {"prop": prop, "S": S.hex(), "recipe": rec, "plan": plans(prop, rng, S, True), "conf": 1 if prop in ("C06", "C07") else 0,
+                            "streamkind": ("min", "bytesio", "pipe", "sock")[k % (4 if prop != "C06" else 3)]})
+
     def gen_odd():
         """frames of EVERY payload definition of the tree whose payload is 1-3 bytes longer or shorter than the definition (valid framing):
         whatever the payload decoder makes of them, the reader must carry on with the frames behind them"""
@@ -358,6 +393,7 @@ def reader_check(ctx, prop):
         run_batch(ctx, MODULE, CFG, gen_nested(), st.OBSERVERS, sigfn, neg, chunk=40 if prop == "C09" else 120, neg_every=7)
     if prop != "C09":
         run_batch(ctx, MODULE, CFG, gen_long(), st.OBSERVERS, sigfn, neg, chunk=4, neg_every=2)
+    run_batch(ctx, MODULE, CFG, gen_repeat(), st.OBSERVERS, sigfn, neg, chunk=40 if prop in ("C09", "C11") else 120, neg_every=7)
     run_batch(ctx, MODULE, CFG, gen_odd(), st.OBSERVERS, sigfn, neg, chunk=40 if prop in ("C09", "C11") else 120, neg_every=7)
     if prop != "C06":
         run_batch(ctx, MODULE, CFG, gen_tails(), st.OBSERVERS, sigfn, neg, chunk=40, neg_every=5)
